@@ -96,23 +96,23 @@ TABLE = {
 EXTRA = {
  'C01': ' Added: sequences of estimator calls on ONE Dataset (second result against the formula on the original data), caller-owned arguments bit-identical after every call, eight time axes (large offsets / tiny steps) for movies, measurements and precisions at scales 1e-5..1e6, six-digit / float / prefix-string condition labels.',
  'C02': ' Added: every ordered pair of 20 cross-validated estimator calls on ONE Dataset, dataset bit-identical after every call.',
- 'C03': ' Added: sequences of measures on one pair of input objects (inputs unchanged), sigma_k and RDM values at scales 1e-10..1e8 (scale invariance of every similarity).',
- 'C04': ' Added: ndarray descriptors, three-sample histories from a three-entry menu, data unchanged after evaluation, fitter called once per fold with the evaluation\'s method, the n_cv-corrected covariance recomputed from the stored evaluations of all repetitions, per-repetition ceilings of the random-fold bootstrap, model lists with repeated names.',
- 'C05': ' Added: string labels that are substrings of each other, ndarray containers, source object unchanged, fitter-call count.',
+ 'C03': ' Added: sequences of measures on one pair of input objects (inputs unchanged), sigma_k and RDM values at scales 1e-10..1e8 (scale invariance of every similarity). Round 7: integer- and float32-typed stacks on either side.',
+ 'C04': ' Added: ndarray descriptors, three-sample histories from a three-entry menu, data unchanged after evaluation, fitter called once per fold with the evaluation\'s method, the n_cv-corrected covariance recomputed from the stored evaluations of all repetitions, per-repetition ceilings of the random-fold bootstrap, model lists with repeated names. Round 7: 20 groups of two RDMs (string / time-stamp labels), every boot_type with grouped descriptors.',
+ 'C05': ' Added: string labels that are substrings of each other, ndarray containers, source object unchanged, fitter-call count. Round 7: float labels np.isclose cannot separate; folds / in-place re-ordering / folds on one object.',
  'C06': ' Added: every ordered pair of Result- and util-level calls on one Result / one shared array (stored arrays bit-identical, later outputs equal fresh-object outputs).',
  'C07': ' Added: the real crossval() with pattern-only sets (ceil_set None) judged per fold at the fold\'s test conditions, and with generated ceil sets.',
  'C08': ' Added: NNLS on every triple (stride of quadruples) of the 32 grid squared-distance RDMs against the brute-force active-set optimum; all ordered pairs of fits on ONE model object; arguments bit-identical after every fit / predict; data / basis / sigma_k at scales 1e-10..1e6 for the closed-form fitters; six-digit non-ascending pattern descriptors.',
- 'C09': ' Added: sources that are themselves subsets / resamples, six-digit group ids, signed integer / float group codes, uniformity by counting over the complete enumeration.',
- 'C10': ' Added: from_partials order variants, in-place twin probes after every transition, triple copies, six-digit id descriptors, every to_df descriptor column (index columns included) against the object\'s own descriptors in every state.',
- 'C11': ' Added: twin sort_by probes, variable-length string labels, six-digit observation ids, a time axis with a large offset, from_df with channels listed in another order / subset / default.',
- 'C12': ' Added: each optional parameter switched one at a time and in pairs, grouping descriptors with repeated values and a single group, ascending ndarray descriptors, stacks of one RDM, nested results (sets of folds), index descriptors fingerprinted.',
+ 'C09': ' Added: sources that are themselves subsets / resamples, six-digit group ids, signed integer / float group codes, uniformity by counting over the complete enumeration. Round 7: sources stored as bool / int / float32; direct subsample calls with bare values, scalars and containers.',
+ 'C10': ' Added: from_partials order variants, in-place twin probes after every transition, triple copies, six-digit id descriptors, every to_df descriptor column (index columns included) against the object\'s own descriptors in every state. Round 7: receiver dtype x appended dtype x value kind for the joining and re-arranging operations.',
+ 'C11': ' Added: twin sort_by probes, variable-length string labels, six-digit observation ids, a time axis with a large offset, from_df with channels listed in another order / subset / default. Round 7: subset requests that hold a value not present in the data.',
+ 'C12': ' Added: each optional parameter switched one at a time and in pairs, grouping descriptors with repeated values and a single group, ascending ndarray descriptors, stacks of one RDM, nested results (sets of folds), index descriptors fingerprinted. Round 7: matrix stacks with non-zero diagonal as constructor arguments, per-fold precision lists symmetric only up to rounding.',
  'C13': ' Added: caller-owned arrays bit-identical after every call; two-call sequences sharing one weights / sigma_k array over all ordered mask pairs; stacks with n_rdm == n_pairs.',
  'C14': ' Added: values at scales 1e-5 and 1e4 with scale-relative oracles and a scale-equivariance law; runs of unequal length; inputs unchanged.',
  'C15': ' Added: float fold codes, datasets that already carry index / cv_desc / conds columns, arguments bit-identical after every call, ordered pairs of calls on ONE Dataset, data at scales 1e-5 / 1e4, six-digit and epoch-like labels.',
- 'C16': ' Added: file histories (second save onto an existing path / through the same handle, overwrite, remove), Results with > 10 models and n_rdm > n_pattern, in-memory object unchanged by saving, save / load / replace / load on ONE path, a loaded object edited in place then loaded again.',
+ 'C16': ' Added: file histories (second save onto an existing path / through the same handle, overwrite, remove), Results with > 10 models and n_rdm > n_pattern, in-memory object unchanged by saving, save / load / replace / load on ONE path, a loaded object edited in place then loaded again. Round 7: two objects through one open pickle stream.',
  'C17': ' Added: rescaling maps that compress the value range (tie detection), NaN masks through every transform, exact 0 / 1 extremes and integer ranges 1..K for minmax / geodesic, pooled RDMs and noise ceilings under per-RDM different increasing maps.',
  'C18': ' Added: n_sim > 1 per-dataset independence, condition vectors in non-first-appearance order and with six-digit labels, noise term = data(s, v) - data(s, 0) identical for all signals and sqrt-scaled over noise 1e-10..1e6, arguments unchanged, repeated calls under the same draws identical, make_signal directly.',
- 'C19': ' Added: non-ascending centre lists, unbalanced events, data at scales 1e-5 / 1e4, six-digit condition codes, arguments unchanged, every mask also Fortran-ordered / strided view / uint8 / float / nested list.',
+ 'C19': ' Added: non-ascending centre lists, unbalanced events, data at scales 1e-5 / 1e4, six-digit condition codes, arguments unchanged, every mask also Fortran-ordered / strided view / uint8 / float / nested list. Round 7: mixed-case and float labels; int64 / int16 / float32 volumes.',
  'C20': ' Added: permuted-order Meadows tasks, stimulus names with prefix pairs around ".", ordered pairs of look-ups on ONE BidsLayout, two layouts over two trees, repeated / alternating loads per importer compared with a freshly reloaded module, arguments unchanged, value scales, numeric-looking entity values.',
 }
 for _k, _v in EXTRA.items():
